@@ -540,6 +540,10 @@ func TestVerifC36Scripts(t *testing.T) {
 	w := newC36World(t, 3)
 	defer w.close()
 	for i, sc := range scripts {
+		if vregStuck.Load() > 2 {
+			out.put(c36Trace{ID: sc.ID, Err: "skipped: the driver lost control of too many threads in earlier schedules"})
+			continue
+		}
 		out.put(c36RunScript(t, w, sc, i))
 	}
 }
